@@ -1,12 +1,22 @@
-import LiquidVerif.Model.Lex
-import LiquidVerif.Model.LexRender
+import LiquidVerif.Lemmas.Lex
 /-!
 # C10 — literal text, raw blocks, comments and whitespace control
+
+Property theorems about `LiquidVerif/Model/Lex.lean` (`_tokenize_template`, line by line) and
+`Model/LexRender.lean` (`Parser._parse` + the anchored tags' `parse` / `render_to_output`), against the
+specification `specNodes` of `Model/LexSpec.lean`.  Helper lemmas live in `Lemmas/Lex.lean`.
+
+All theorems quantify over every delimiter set `d`, every item list (no bound on length, on the nesting depth of
+block comments, on padding or on text) and — for the output statements — every semantics `sem` of output
+statements and ordinary tags.
 -/
 namespace LiquidVerif.C10
 open LiquidVerif.Lex
 
-/-- `lstrip` removes *all* leading whitespace and nothing else. -/
+/-! ## what "removes all whitespace" means -/
+
+/-- `lstrip` removes *all* leading whitespace and nothing else: `s = w ++ lstrip s` with `w` all whitespace and
+`lstrip s` not starting with whitespace. -/
 theorem lstrip_spec (s : Str) :
     ∃ w, s = w ++ lstrip s ∧ w.all isSpace = true ∧ headIs isSpace (lstrip s) = false := by
   induction s with
@@ -21,5 +31,30 @@ theorem lstrip_spec (s : Str) :
     · refine ⟨[], ?_, rfl, ?_⟩
       · simp [lstrip, h]
       · simp [lstrip, h, headIs]
+
+/-- `rstrip` removes *all* trailing whitespace and nothing else. -/
+theorem rstrip_spec (s : Str) :
+    ∃ w, s = rstrip s ++ w ∧ w.all isSpace = true ∧ lastIs isSpace (rstrip s) = false := by
+  obtain ⟨w, h1, h2, h3⟩ := lstrip_spec s.reverse
+  refine ⟨w.reverse, ?_, ?_, ?_⟩
+  · have := congrArg List.reverse h1
+    simpa [rstrip] using this
+  · simpa using h2
+  · simpa [lastIs, rstrip] using h3
+
+/-! ## the refinement -/
+
+/-- **Main theorem.** Lexing and parsing the source assembled from any list of items yields exactly the
+specified node list `specNodes`: every text item is one content node, left-stripped iff the closing delimiter
+of the item before carries a hyphen, right-stripped iff the opening delimiter of the item after does
+(and dropped only when nothing is left); every raw block is a content node holding its body verbatim; block,
+inline and shorthand comments and doc blocks are comment / doc nodes; `lf` is the strip flag inherited from
+whatever precedes. Side conditions (`allOk`): top-level text does not begin like markup after stripping, block
+comments are balanced. -/
+theorem lex_refines_spec (d : Delims) (items : List Item) (lf : Bool) (hok : allOk items = true) :
+    nodesFrom d lf (flatten items) = .ok (specNodes d lf items) := by
+  obtain ⟨ts, h1, h2⟩ := lex_parse_spec d items 0 lf hok
+  have h1' : tokenize { lstrip := lf } (matchesOf d 0 (flatten items)) = .ok ts := h1
+  simp only [nodesFrom, h1', parse, h2]
 
 end LiquidVerif.C10
